@@ -553,6 +553,13 @@ func (ch c15) Run(c *core.Ctx) {
 			continue
 		}
 		rng := core.NewRng(c.Seed, "C15", 0, g)
+		// in a third of the groups all peers report the same remote address (unix-domain sockets, pipes,
+		// an address-hiding proxy): what is kept per connection is kept per connection, not per address
+		tr.AnonAddrs.Store(g%3 == 1)
+		defer tr.AnonAddrs.Store(false)
+		if g%3 == 1 {
+			c.Count("groups_whose_peers_share_one_remote_address", 1)
+		}
 		n := 2 + rng.Intn(23)
 		if rng.Intn(4) == 0 {
 			n = 2 + rng.Intn(3)
